@@ -26,14 +26,19 @@ RULE = (
 EXPLANATION = "exhaustive bounded enumeration against the real encoder/decoder"
 ASSUMPTIONS = ["fixture package importable by name", "the __module__ of an anonymous TypedDict is not structure"]
 
-EXTRA_VALUES = ["Color.RED", "[Color.RED, Color.BLUE]", "Color", "AbcImpl()", "AbcBase", "WithMeta()", "WithMeta", "{'a': AbcImpl()}", "NotImplemented", "int.__dict__", "H.NoneType()", "H.mappingproxy()", "H.Any()", "H.Union()", "H.List()", "[H.NoneType()]", "{'a': H.NoneType()}", "H.NoneType", "[NotImplemented, None]"]
+EXTRA_VALUES = ["Color.RED", "[Color.RED, Color.BLUE]", "Color", "AbcImpl()", "AbcBase", "WithMeta()", "WithMeta", "{'a': AbcImpl()}", "NotImplemented", "int.__dict__", "H.NoneType()", "H.mappingproxy()", "H.Any()", "H.Union()", "H.List()", "[H.NoneType()]", "{'a': H.NoneType()}", "H.NoneType", "[NotImplemented, None]",
+                # classes that are falsy (metaclass __len__ / __bool__) and typing.TypedDict classes, as instances and as class objects
+                "OD.Registry()", "OD.Registry", "OD.Flagless()", "OD.Flagless", "[OD.Registry(), OD.Flagless()]", "OD.Movie", "OD.Options", "OD.Api.Payload", "[OD.Movie, OD.Options]", "(OD.Api.Payload, 1)", "{'a': OD.Movie}"]
 
 
 def _ns():
     import vfx.hidden as H
 
+    import vfx.odd as OD
+
     ns = dict(V.NS)
     ns["H"] = H
+    ns["OD"] = OD
     return ns
 
 
@@ -254,7 +259,9 @@ def run(ctx: Ctx) -> Result:
                 res.sample({"type": O.show(T)})
         # traces
         funcs = fixture_funcs()
-        slot_types = [None, O.NoneType] + types[:: max(1, len(types) // 40)][:40]
+        import vfx.odd as OD
+
+        slot_types = [None, O.NoneType, OD.Registry, OD.Flagless, typing.Type[OD.Movie], typing.List[OD.Registry]] + types[:: max(1, len(types) // 40)][:40]
         arg_types = types[:: max(1, len(types) // 25)][:25]
         combos = list(itertools.product(range(len(funcs)), range(len(slot_types)), range(len(slot_types))))
         for ci in range(si, len(combos), nshards):
@@ -300,7 +307,9 @@ def replay(case: Dict[str, Any], ctx: Ctx) -> List[Violation]:
         v = check_type(types[case["index"]], (type_to_json, type_from_json))
     else:
         funcs = fixture_funcs()
-        slot_types = [None, O.NoneType] + types[:: max(1, len(types) // 40)][:40]
+        import vfx.odd as OD
+
+        slot_types = [None, O.NoneType, OD.Registry, OD.Flagless, typing.Type[OD.Movie], typing.List[OD.Registry]] + types[:: max(1, len(types) // 40)][:40]
         arg_types = types[:: max(1, len(types) // 25)][:25]
         combos = list(itertools.product(range(len(funcs)), range(len(slot_types)), range(len(slot_types))))
         fi, ri, yi = combos[case["ci"]]
